@@ -2,7 +2,7 @@
 """C20 -- tag authentication and MAC-protected reads cannot be fooled (structural clauses)."""
 import ast
 
-from ..model import norm, head, walk_no_nested, AnalysisError, FuncInfo, enclosing_stmt, ancestors
+from ..model import norm, head, walk_no_nested, AnalysisError, FuncInfo, enclosing_stmt, ancestors, live
 from ..cfg import cfg_of
 from ..q import (find, match, const, try_const, only_via, tests, stmt_nodes, one, fmt, cfg_node_for, calls, eq_edge, edges_where)
 from ..core import key
@@ -200,7 +200,7 @@ def rule_mac_inputs(report, prog):
     report.check(okk, 'C20-R4', key(w.qname, 'write MAC over WCNT || block || 91h || data under the flipped session key, sent with the data'), w.loc(),
                  'write MAC inputs changed')
     fl = w.closures.get('flip')
-    okk = fl is not None and norm(fl.node.body[0]) == 'return sk[8:16] + sk[0:8]'
+    okk = fl is not None and norm(live(fl.node.body)[0]) == 'return sk[8:16] + sk[0:8]'
     report.check(okk, 'C20-R4', key(w.qname, 'flip exchanges the key halves'), w.loc(), 'flip() changed')
     r = [x for x in walk_no_nested(w.node) if isinstance(x, ast.Raise) and 'authenticated first' in norm(x)]
     report.check(len(r) == 1, 'C20-R4', key(w.qname, 'refuses to run without a session key'), w.loc(), 'session key precondition changed')
